@@ -73,13 +73,17 @@ pub fn request_lines(base: u64) -> Vec<CM> {
         CM::Transform(Transform { transaction_id: next(), key: s("tr"), template: json!({}) }),
         CM::ProtocolSwitchRequest(ProtocolSwitchRequest { version: 0 }),
         CM::ProtocolSwitchRequest(ProtocolSwitchRequest { version: 1 }),
+        // (appended, so that the indices used by `core_request_lines` stay put) a second ls
+        // subscription on the same parent, unsubscribed independently of the first
+        CM::SubscribeLs(SubscribeLs { transaction_id: 921 + base, parent: Some(s("a")) }),
+        CM::UnsubscribeLs(UnsubscribeLs { transaction_id: 921 + base }),
     ]
 }
 
 /// a reduced alphabet for the deeper exploration
 pub fn core_request_lines(base: u64) -> Vec<CM> {
     let all = request_lines(base);
-    let keep = [0usize, 2, 3, 6, 7, 9, 10, 13, 15, 17, 18, 21, 25, 29, 31, 32, 34, 36, 38, 39, 40, 43, 44, 46, 48, 49, 51, 52];
+    let keep = [0usize, 2, 3, 6, 7, 9, 10, 13, 15, 17, 18, 21, 25, 29, 31, 32, 34, 36, 38, 39, 40, 43, 44, 46, 48, 49, 51, 52, 55, 56];
     keep.iter().filter_map(|i| all.get(*i).cloned()).collect()
 }
 
